@@ -139,12 +139,40 @@ def search_C12(pid, budget):
                     [(g[0], g[1]) for g in got], [(i + 1, s) for i, (s, b) in enumerate(exp)]), pattern=pat)
         if dets != [(i + 1, s) for i, (s, b) in enumerate(exp)]:
             fail(pid, "TokenizerWorker.run", "detections list %r, split() gives %r" % (dets, exp), pattern=pat)
+    # the observers are released even if closing the reader fails
+    n += 1
+    data = synth("aAAAaa", 10)
+    obs = [Obs(), Obs()]
+    rd = AudioReader(data, block_dur=0.01, sr=1000, sw=2, ch=1)
+
+    class BadClose:
+        def __init__(self, r):
+            self.r = r
+
+        def __getattr__(self, a):
+            return getattr(self.r, a)
+
+        def close(self):
+            raise OSError("device lost")
+    tw = TokenizerWorker(BadClose(rd), obs, min_dur=0.02, max_dur=0.05, max_silence=0.01)
+    tw._inbox = ScriptQ(["E"] * 10000, STOPM)
+    try:
+        tw.run()
+    except OSError:
+        pass
+    for o in obs:
+        if o.got[-1:] != [STOPM]:
+            fail(pid, "TokenizerWorker.run", "reader.close() failed at the end of the stream and the observers never got the stop marker "
+                 "(they would wait forever): %r" % ([m if m == STOPM else m[0] for m in o.got],))
     return n
 
 
 def wav_bytes(path):
-    with wave.open(path, "rb") as f:
-        return f.readframes(-1), (f.getframerate(), f.getsampwidth(), f.getnchannels())
+    try:
+        with wave.open(path, "rb") as f:
+            return f.readframes(-1), (f.getframerate(), f.getsampwidth(), f.getnchannels())
+    except (EOFError, wave.Error, OSError) as e:
+        return "unreadable wav (%s: %s)" % (type(e).__name__, e), None
 
 
 def search_C13(pid, budget):
@@ -174,7 +202,7 @@ def search_C13(pid, budget):
                         got, params = wav_bytes(p)
                         if got != b"".join(used) or params != (1000, 2, 1):
                             fail(pid, "StreamSaverWorker", "file holds blocks %r, consumed %r (cache_size_sec=%r, %d in loop, drained %r)" % (
-                                [x for x in got[::20]], [x[0] for x in used], cache, pre,
+                                got if isinstance(got, str) else [x for x in got[::20]], [x[0] for x in used], cache, pre,
                                 ["S" if x == "S" else x[0] for x in script]), cache=cache)
                         sv._exported = True
         # read() forwards
@@ -218,6 +246,18 @@ def search_C13(pid, budget):
             fn = tpl.format(id=i + 1, start=r.start, end=r.end, duration=r.duration)
             if not os.path.exists(fn) or wav_bytes(fn)[0] != bytes(r):
                 fail(pid, "RegionSaverWorker", "detection %d not saved as %r with its audio" % (i + 1, os.path.basename(fn)))
+        # unformatted fields, detections whose start + duration is not exact in binary
+        from auditok import AudioRegion
+        tpl = os.path.join(tmp, "d_{id}_{start}_{end}_{duration}.wav")
+        rs = RegionSaverWorker(tpl)
+        for i, (st, ns) in enumerate(((0.1, 200), (0.7, 100), (1.1, 2200), (0.3, 600))):
+            n += 1
+            r = AudioRegion(bytes([i + 1]) * (2 * ns), 1000, 2, 1, start=st)
+            rs._process_message((i + 1, r))
+            fn = tpl.format(id=i + 1, start=r.start, end=r.end, duration=r.duration)
+            if not os.path.exists(fn) or wav_bytes(fn)[0] != bytes(r):
+                fail(pid, "RegionSaverWorker", "detection (start=%r, duration=%r) not saved as %r; files: %r" % (
+                    r.start, r.duration, os.path.basename(fn), sorted(f for f in os.listdir(tmp) if f.startswith("d_%d_" % (i + 1)))))
     finally:
         for f in os.listdir(tmp):
             try:
@@ -287,6 +327,12 @@ def search_C14(pid, budget):
         class O2:
             def stop(self):
                 log.append("obs.stop")
+
+            def send(self, m):
+                log.append("obs.stop" if m == STOPM else "obs.send")
+
+            def join(self, *a):
+                log.append("obs.join")
         inner = AudioReader(data, block_dur=0.01, sr=1000, sw=2, ch=1)
         tw = TokenizerWorker(inner, [O2(), O2()], **kw)
         tw.send = lambda m: log.append("tok.send")
@@ -295,7 +341,8 @@ def search_C14(pid, budget):
         tw._reader = type("R", (), {"close": lambda s: log.append("reader.close")})()
         tw.stop_all()
         n += 1
-        if log != ["tok.send", "tok.join", "obs.stop", "obs.stop", "reader.close"]:
+        core = [x for x in log if x != "obs.join"]
+        if core != ["tok.send", "tok.join", "obs.stop", "obs.stop", "reader.close"]:
             fail(pid, "stop_all", "order of actions %r; the tokenizer must be stopped and joined before the observers are stopped, reader closed last" % log)
         log = []
         rd2 = AudioReader(data, block_dur=0.01, sr=1000, sw=2, ch=1)
@@ -308,6 +355,18 @@ def search_C14(pid, budget):
         n += 1
         if log != ["reader.close", "send:STOP", "join"]:
             fail(pid, "StreamSaverWorker.close", "order of actions %r; expected reader closed, stop marker sent, writer joined" % log)
+        # a stream that ends before any block: the saved file is still a complete (empty) wav
+        for cache in (0, 0.5):
+            n += 1
+            rd3 = AudioReader(b"", block_dur=0.01, sr=1000, sw=2, ch=1)
+            p3 = os.path.join(tmp, "e_%d.wav" % n)
+            sv = StreamSaverWorker(rd3, p3, cache_size_sec=cache)
+            sv._inbox = ScriptQ(["S"], STOPM)
+            Worker.run(sv)
+            got, params = wav_bytes(p3)
+            sv._exported = True
+            if got != b"" or params != (1000, 2, 1):
+                fail(pid, "StreamSaverWorker", "empty stream: saved file is %r, expected a complete wav with no frames" % (got,), cache=cache)
     finally:
         for f in os.listdir(tmp):
             try:
